@@ -528,6 +528,17 @@ def writes_of(fn):
 
 _COMM = {"Add", "Mul", "BitXor", "BitAnd", "BitOr", "Eq", "Ne", "And", "Or"}
 _FLIP = {"Gt": "Lt", "Ge": "Le"}
+_METHOD_OPS = {"add": "Add", "sub": "Sub", "mul": "Mul", "div": "Div", "rem": "Rem", "shl": "Shl", "shr": "Shr"}
+
+
+def subterms(d):
+    """all nested tuples of a descriptor"""
+    out = [d]
+    if isinstance(d, tuple):
+        for x in d:
+            if isinstance(x, tuple):
+                out.extend(subterms(x))
+    return out
 
 
 def hdesc(e, depth=0):
@@ -562,6 +573,16 @@ def hdesc(e, depth=0):
     if k == "index":
         return ("idx", hdesc(e["a"], depth + 1), hdesc(e["i"], depth + 1))
     if k == "mcall":
+        nm = e.get("name") or ""
+        # a.checked_add(b) / wrapping_ / saturating_ on a primitive integer is the operation `a + b` (overflow behaviour aside)
+        if (e.get("path") or "").startswith("core::num::<impl ") and len(e["args"]) == 1 and "_" in nm:
+            pre, op = nm.split("_", 1)
+            if pre in ("checked", "wrapping", "saturating") and op in _METHOD_OPS:
+                op = _METHOD_OPS[op]
+                l, r = hdesc(e["recv"], depth + 1), hdesc(e["args"][0], depth + 1)
+                if op in _COMM:
+                    l, r = sorted((l, r), key=repr)
+                return (op, l, r)
         return ("m", norm(e.get("path")), hdesc(e["recv"], depth + 1)) + tuple(hdesc(a, depth + 1) for a in e["args"])
     if k == "call":
         return ("call", norm(hcallee(e))) + tuple(hdesc(a, depth + 1) for a in e["args"])
